@@ -612,6 +612,71 @@ fn aim_seam(seed: u64, policy: &str) -> Script {
     live.script
 }
 
+/// Entries spanning several WAL files written when nothing (or only the newest file) is retained:
+/// a crash inside such an append leaves first / middle frames in files that hold nothing else; a
+/// recovery has to walk them, resume the writer behind them and reclaim the files it walked.
+fn aim_span(seed: u64, policy: &str) -> Script {
+    let mut rng = Rng(seed ^ 0x5A);
+    let nq = 1 + rng.below(3) as usize;
+    let queues = names(&mut rng, nq);
+    let mut live = Live::new(format!("aim-span-{seed}"), policy, queues, seed);
+    for q in 0..nq {
+        live.push(Step::Create { q });
+    }
+    let rounds = 1 + live.rng.below(3);
+    for _ in 0..rounds {
+        // some traffic, possibly a roll-over
+        for _ in 0..live.rng.below(4) {
+            let q = live.rng.below(nq as u64) as usize;
+            let len = [10usize, 3_000, 50_000, 90_000][live.rng.below(4) as usize];
+            let payload = live.payload(len);
+            live.push(Step::Append { q, pos: None, batch: vec![payload] });
+        }
+        // vacate: every queue truncated to its last record (mostly), so that at most the newest
+        // file is retained
+        for q in 0..nq {
+            if let Some(last) = live.last_position(q) {
+                if live.rng.chance(85) {
+                    live.push(Step::Truncate { q, p: last });
+                }
+            }
+        }
+        if live.rng.chance(40) {
+            // start the spanning entry at a chosen distance from the end of the file
+            let gap = [0usize, 7, 8, 20, 40_000][live.rng.below(5) as usize];
+            let q = live.rng.below(nq as u64) as usize;
+            live.fill_to(q, gap, true);
+            if let Some(last) = live.last_position(q) {
+                live.push(Step::Truncate { q, p: last });
+            }
+        }
+        if live.rng.chance(30) {
+            live.push(Step::Restart);
+        }
+        // the spanning entry: 1.1 to 3.2 files' worth, as one record or as a batch
+        let q = live.rng.below(nq as u64) as usize;
+        let total = FILE + live.rng.below(2 * FILE as u64 + FILE as u64 / 5) as usize + FILE / 10;
+        let batch: Vec<Payload> = if live.rng.chance(60) {
+            vec![live.payload(total)]
+        } else {
+            let n = 2 + live.rng.below(4) as usize;
+            (0..n).map(|_| live.payload(total / n)).collect()
+        };
+        live.push(Step::Append { q, pos: None, batch });
+        if live.rng.chance(50) {
+            if let Some(last) = live.last_position(q) {
+                live.push(Step::Truncate { q, p: last });
+            }
+        }
+    }
+    live.push(Step::Restart);
+    for q in 0..nq {
+        let payload = live.payload(5);
+        live.push(Step::Append { q, pos: None, batch: vec![payload] });
+    }
+    live.script
+}
+
 pub fn is_aimed(profile: &str) -> bool {
     profile.starts_with("aim-")
 }
@@ -630,6 +695,7 @@ pub fn generate(profile: &str, seed: u64, policy: &str) -> Script {
         "aim-noop" => aim_noop(seed, &policy_owned),
         "aim-recreate" => aim_recreate(seed, &policy_owned),
         "aim-seam" => aim_seam(seed, &policy_owned),
+        "aim-span" => aim_span(seed, &policy_owned),
         other => panic!("unknown aimed profile {other}"),
     });
     mrecordlog::verif::take_events();
